@@ -1,0 +1,120 @@
+//go:build verif
+
+// Contracts for package ring, checked by /verif/govc (comment-only file; the
+// compiler never sees it unless the build tag `verif` is set, and even then it
+// contains no code).
+
+package ring
+
+//@ pred sortedStrict(s []uint32) = forall i, j int :: 0 <= i && i < j && j < len(s) ==> s[i] < s[j]
+//@
+//@ func searchToken
+//@   property C01 C14 C15
+//@   requires sortedStrict(tokens)
+//@   ensures  len(tokens) == 0 ==> result == 0
+//@   ensures  range: len(tokens) > 0 ==> 0 <= result && result < len(tokens)
+//@   ensures  succ: (exists j int :: 0 <= j && j < len(tokens) && tokens[j] > key) ==>
+//@              tokens[result] > key && (forall j int :: 0 <= j && j < result ==> tokens[j] <= key)
+//@   ensures  wrap: (forall j int :: 0 <= j && j < len(tokens) ==> tokens[j] <= key) ==> result == 0
+//@   pure
+//@
+//@ func tokenDistance
+//@   property C16
+//@   ensures from < to ==> result == to - from
+//@   ensures from >= to ==> result == 4294967296 - from + to
+//@   ensures 1 <= result && result <= 4294967296
+//@
+//@ pred sortedNS(s []uint32) = forall i, j int :: 0 <= i && i < j && j < len(s) ==> s[i] <= s[j]
+//@ opaque pred pairCovers(tr []uint32, j int, k uint32) = 0 <= j && 2*j+1 < len(tr) && tr[2*j] <= k && k <= tr[2*j+1]
+//@ macro pred covers(tr []uint32, k uint32) = exists j int :: pairCovers(tr, j, k)
+//@
+//@ func TokenRanges.IncludesKey
+//@   property C14
+//@   requires sortedNS(tr) && len(tr) % 2 == 0
+//@   at exit: assert result ==> pairCovers(tr, index/2, key)
+//@   ensures  sound: result ==> covers(tr, key)
+//@   ensures  complete: covers(tr, key) ==> result
+//@   pure
+//@
+//@ pred prRep(r PartitionRing) = sortedStrict(r.ringTokens) && len(r.ringPartitionIDs) == len(r.ringTokens) && len(r.ringPartitionActive) == len(r.ringTokens)
+//@ pred noneActiveIn(a []bool, lo int, hi int) = forall q int :: lo <= q && q < hi ==> !a[q]
+//@ pred firstActiveFrom(a []bool, s int, p int) = 0 <= p && p < len(a) && a[p] &&
+//@        (p >= s ==> noneActiveIn(a, s, p)) && (p < s ==> noneActiveIn(a, s, len(a)) && noneActiveIn(a, 0, p))
+//@
+//@ func PartitionRing.ActivePartitionForKey
+//@   property C15 C14
+//@   requires prRep(r)
+//@   ensures  none: noneActiveIn(r.ringPartitionActive, 0, len(r.ringTokens)) ==> r1 == ErrNoActivePartitionFound
+//@   ensures  some: !noneActiveIn(r.ringPartitionActive, 0, len(r.ringTokens)) ==> r1 == nil
+//@   ensures  route: r1 == nil ==> (exists p int :: firstActiveFrom(r.ringPartitionActive, searchToken(r.ringTokens, key), p) && r0 == r.ringPartitionIDs[p])
+//@   loop 0 invariant 0 <= iterations && iterations <= tokensCount && 0 <= i && i <= tokensCount
+//@   loop 0 invariant tokensCount == len(r.ringTokens) && start == searchToken(r.ringTokens, key) && 0 <= start && (tokensCount > 0 ==> start < tokensCount)
+//@   loop 0 invariant iterations < tokensCount ==> (i == tokensCount ? 0 : i) == (start + iterations < tokensCount ? start + iterations : start + iterations - tokensCount)
+//@   loop 0 invariant noneActiveIn(r.ringPartitionActive, start, min(start + iterations, tokensCount)) && noneActiveIn(r.ringPartitionActive, 0, start + iterations - tokensCount)
+//@   modifies nothing
+//@
+//@ # ---- C14: token ranges of an instance -------------------------------------------------
+//@ opaque pred pairCoversD(r []uint32, j int, k uint32) = 0 <= j && 2*j+1 < len(r) && r[2*j+1] <= k && k <= r[2*j]
+//@ pred coversDesc(r []uint32, k uint32) = exists j int :: pairCoversD(r, j, k)
+//@ pred descPairs(r []uint32) = len(r) % 2 == 0 &&
+//@      (forall a, b int :: 0 <= a && a < b && b < len(r) ==> r[a] >= r[b]) &&
+//@      (forall a, b int :: 0 <= a && a < b && b < len(r) && !(b == a+1 && a % 2 == 0) ==> r[a] > r[b])
+//@ pure func zoneTokens(r Ring, id string) []uint32 = r.ringTokensByZone[r.ringDesc.Ingesters[id].Zone]
+//@ opaque pure func keyOwner(r Ring, id string, k uint32) string =
+//@      r.ringInstanceByToken[zoneTokens(r, id)[searchToken(zoneTokens(r, id), k)]].InstanceID
+//@
+//@ lemma revCovers(r []uint32, s []uint32)
+//@   property C14
+//@   ensures len(r) == len(s) && len(r) % 2 == 0 && (forall i int :: 0 <= i && i < len(s) ==> s[i] == r[len(s)-1-i]) ==>
+//@           (forall k uint32 :: covers(s, k) <==> coversDesc(r, k))
+//@   proof
+//@   assert len(r) == len(s) && len(r) % 2 == 0 && (forall i int :: 0 <= i && i < len(s) ==> s[i] == r[len(s)-1-i]) ==>
+//@           (forall k uint32, j int :: pairCovers(s, j, k) ==> pairCoversD(r, len(r)/2-1-j, k))
+//@   assert len(r) == len(s) && len(r) % 2 == 0 && (forall i int :: 0 <= i && i < len(s) ==> s[i] == r[len(s)-1-i]) ==>
+//@           (forall k uint32, j int :: pairCoversD(r, j, k) ==> pairCovers(s, len(r)/2-1-j, k))
+//@
+//@ lemma appendCovers(r []uint32, r2 []uint32)
+//@   property C14
+//@   ensures len(r) % 2 == 0 && len(r2) == len(r) + 2 && (forall i int :: 0 <= i && i < len(r) ==> r2[i] == r[i]) ==>
+//@           (forall k uint32 :: coversDesc(r2, k) <==> (coversDesc(r, k) || (r2[len(r)+1] <= k && k <= r2[len(r)])))
+//@   proof
+//@   assert len(r) % 2 == 0 && len(r2) == len(r) + 2 && (forall i int :: 0 <= i && i < len(r) ==> r2[i] == r[i]) ==>
+//@           (forall k uint32, j int :: pairCoversD(r, j, k) ==> pairCoversD(r2, j, k))
+//@   assert len(r) % 2 == 0 && len(r2) == len(r) + 2 && (forall i int :: 0 <= i && i < len(r) ==> r2[i] == r[i]) ==>
+//@           (forall k uint32, j int :: pairCoversD(r2, j, k) ==> (2*j+1 < len(r) ? pairCoversD(r, j, k) : (r2[len(r)+1] <= k && k <= r2[len(r)])))
+//@   assert len(r) % 2 == 0 && len(r2) == len(r) + 2 && (forall i int :: 0 <= i && i < len(r) ==> r2[i] == r[i]) ==>
+//@           (forall k uint32 :: r2[len(r)+1] <= k && k <= r2[len(r)] ==> pairCoversD(r2, len(r)/2, k) && coversDesc(r2, k))
+//@
+//@ func Ring.GetTokenRangesForInstance
+//@   property C14
+//@   requires r.ringDesc != nil
+//@   requires forall z string :: in(z, r.ringTokensByZone) ==> sortedStrict(r.ringTokensByZone[z])
+//@   ghost var own set[uint32] = setof k uint32 :: keyOwner(r, instanceID, k) == instanceID
+//@   ghost var cov set[uint32] = emptyset(0)
+//@   ghost var covn int = 0
+//@   ghost var pre []uint32 = zoneTokens(r, instanceID)
+//@   ghost var prevr []uint32 = zoneTokens(r, instanceID)[0:0]
+//@   ensures  shape: r1 == nil ==> len(r0) % 2 == 0 && sortedNS(r0)
+//@   ensures  exact: r1 == nil ==> (forall k uint32 :: covers(r0, k) <==> keyOwner(r, instanceID, k) == instanceID)
+//@   loop 0 invariant 0 <= i && i < len(subringTokens) && sortedStrict(subringTokens) && firstToken == subringTokens[0]
+//@   loop 0 invariant firstTokenInfo == r.ringInstanceByToken[firstToken]
+//@   loop 0 invariant subringTokens == zoneTokens(r, instanceID)
+//@   loop 0 invariant descPairs(ranges) && covn == len(ranges) && same(prevr, ranges)
+//@   loop 0 invariant rangeOpen ==> rangeEnd >= subringTokens[i] && (len(ranges) > 0 ==> ranges[len(ranges)-1] > rangeEnd)
+//@   loop 0 invariant !rangeOpen && len(ranges) > 0 ==> ranges[len(ranges)-1] >= subringTokens[i]
+//@   loop 0 invariant link: forall k uint32 :: cov[k] <==> coversDesc(ranges, k)
+//@   loop 0 invariant low: forall k uint32 :: cov[k] ==> k >= subringTokens[i] && (rangeOpen ==> k > rangeEnd)
+//@   loop 0 invariant cover: forall k uint32 :: k >= subringTokens[i] ==> ((cov[k] || (rangeOpen && k <= rangeEnd)) <==> own[k])
+//@   loop 0 init prevr := ranges
+//@   loop 0 end use appendCovers(prevr, ranges)
+//@   loop 0 end prevr := ranges
+//@   loop 0 end cov := len(ranges) > covn ? setrange(cov, ranges[len(ranges)-1], ranges[len(ranges)-2]) : cov
+//@   loop 0 end covn := len(ranges)
+//@   at before@slices.Sort: use appendCovers(prevr, ranges)
+//@   at before@slices.Sort: cov := len(ranges) > covn ? setrange(cov, ranges[len(ranges)-1], ranges[len(ranges)-2]) : cov
+//@   at before@slices.Sort: pre := ranges
+//@   at before@slices.Sort: assert descPairs(ranges)
+//@   at before@slices.Sort: assert forall k uint32 :: cov[k] <==> coversDesc(ranges, k)
+//@   at before@slices.Sort: assert forall k uint32 :: cov[k] <==> own[k]
+//@   at exit: use revCovers(pre, r0)
+//@   modifies nothing
